@@ -309,6 +309,10 @@ def handle (stream : String) (args : List String) : String :=
       | .error .noScheme => "err noscheme" | .error .port => "err port" | .error .scheme => "err scheme"
       | .error .transport => "err transport" | .error .stunTransport => "err stuntransport"
     | none => "bad-hex"
+  | "candprio", [name, comp] =>
+    match comp.toNat? with
+    | some c => match constructorPriority name c with | some v => toString v | none => "bad-name"
+    | none => "bad-args"
   | "pairorder", role :: prefer :: cands =>
     -- cands: `L|R,id,prio,tcp,component,loopback,v4,passive,host,private`
     let parseC (t : String) : Option (Bool × IcePairs.PCand) :=
